@@ -781,4 +781,6 @@ WITNESSES = [
     {"id": "C04.w-convert-uses-network-order-length-as-offset", "rule": "C04.R3", "file": PK,
      "old": "\t\t} else {\n\t\t\terr_pdu->len_enc_pdu = lrtr_convert_long(target_byte_order, err_pdu->len_enc_pdu);\n\t\t\t*((uint32_t *)(err_pdu->rest + err_pdu->len_enc_pdu)) = lrtr_convert_long(\n\t\t\t\ttarget_byte_order, *((uint32_t *)(err_pdu->rest + err_pdu->len_enc_pdu)));\n\t\t}",
      "new": "\t\t} else {\n\t\t\t*((uint32_t *)(err_pdu->rest + err_pdu->len_enc_pdu)) = lrtr_convert_long(\n\t\t\t\ttarget_byte_order, *((uint32_t *)(err_pdu->rest + err_pdu->len_enc_pdu)));\n\t\t\terr_pdu->len_enc_pdu = lrtr_convert_long(target_byte_order, err_pdu->len_enc_pdu);\n\t\t}"},
+    {"id": "C04.w-size-check-on-the-header-copy", "rule": "C04.R2", "file": PK,
+     "old": "\tif (rtr_pdu_check_size(pdu) == false) {", "new": "\tif (rtr_pdu_check_size(&header) == false) {"},
 ]
